@@ -168,6 +168,9 @@ def eval_expr(e: ast.expr, env: dict[str, Any], oracle: Oracle | None = None) ->
         recv = eval_expr(e.func.value, env, oracle)
         if isinstance(recv, (str, bytes)):
             return getattr(recv, e.func.attr)(*[eval_expr(a, env, oracle) for a in e.args])
+        if recv is None or isinstance(recv, (int, float, bool, list, tuple, dict, set)):
+            # a value of a builtin type that has no such method: AttributeError at run time
+            raise Raised(ast.Raise(exc=ast.Name(id="AttributeError", ctx=ast.Load()), cause=None))
     if isinstance(e, ast.Call) and isinstance(e.func, ast.Name) and e.func.id in ("all", "any") and len(e.args) == 1 and not e.keywords:
         return {"all": all, "any": any}[e.func.id](eval_expr(e.args[0], env, oracle))
     if isinstance(e, ast.Call) and isinstance(e.func, ast.Attribute) and e.func.attr in ("items", "keys", "values") and not e.args and not e.keywords:
@@ -198,9 +201,13 @@ def eval_expr(e: ast.expr, env: dict[str, Any], oracle: Oracle | None = None) ->
                     return len(v)
             except AnalysisError:
                 pass
-        if f in ("max", "min", "int", "abs", "float", "round", "bool", "range") and not e.keywords:
+        if f in ("max", "min", "int", "abs", "float", "round", "bool", "range", "tuple", "list", "sorted", "str") and not e.keywords:
             args = [eval_expr(a, env, oracle) for a in e.args]
-            return {"max": max, "min": min, "int": int, "abs": abs, "float": float, "round": round, "bool": bool, "range": range}[f](*args)
+            try:
+                return {"max": max, "min": min, "int": int, "abs": abs, "float": float, "round": round, "bool": bool, "range": range, "tuple": tuple, "list": list,
+                        "sorted": sorted, "str": str}[f](*args)
+            except (TypeError, ValueError) as ex:
+                raise Raised(ast.Raise(exc=ast.Name(id=type(ex).__name__, ctx=ast.Load()), cause=None))
         if oracle is not None:
             v = oracle(e, env)
             if v is not NotImplemented:
